@@ -147,25 +147,31 @@ class CFG:
 
     def _stmt(self, st: ast.stmt, ins: list[tuple[int, str]]) -> list[tuple[int, str]]:
         if isinstance(st, ast.If):
-            t = self._new("test", st.test)
+            # tests are stored without leading negations and the edge labels are swapped instead: `if not c: A else: B` and
+            # `if c: B else: A` give the same graph, so no rule depends on how a branch is phrased
+            test, flipped = _strip_not(st.test)
+            TL, FL = ("F", "T") if flipped else ("T", "F")
+            t = self._new("test", test)
             self._connect(ins, t)
             self._implicit_exc(t)
-            outs = self._block(st.body, [(t.id, "T")])
-            outs += self._block(st.orelse, [(t.id, "F")]) if st.orelse else [(t.id, "F")]
+            outs = self._block(st.body, [(t.id, TL)])
+            outs += self._block(st.orelse, [(t.id, FL)]) if st.orelse else [(t.id, FL)]
             return outs
         if isinstance(st, ast.While):
-            t = self._new("test", st.test)
+            test, flipped = _strip_not(st.test)
+            TL, FL = ("F", "T") if flipped else ("T", "F")
+            t = self._new("test", test)
             self._connect(ins, t)
             self._implicit_exc(t)
             after = self._new("join", None, "while-exit")
             self._frames.append(("loop", t.id, after.id))
-            body_out = self._block(st.body, [(t.id, "T")])
+            body_out = self._block(st.body, [(t.id, TL)])
             self._frames.pop()
             for o in body_out:
                 self._edge(o, t.id)
             const_true = isinstance(st.test, ast.Constant) and bool(st.test.value)
             if not const_true:
-                else_out = self._block(st.orelse, [(t.id, "F")]) if st.orelse else [(t.id, "F")]
+                else_out = self._block(st.orelse, [(t.id, FL)]) if st.orelse else [(t.id, FL)]
                 for o in else_out:
                     self._edge(o, after.id)
             return [(after.id, "")] if self.pred[after.id] else []
@@ -443,6 +449,13 @@ def _dominators(cfg: CFG, entry: int, succ, pred) -> dict[int, set[int]]:
 # ------------------------------------------------------------------------------------------------
 # condition normalisation (Appendix A.1)
 # ------------------------------------------------------------------------------------------------
+
+def _strip_not(test: ast.AST) -> tuple[ast.AST, bool]:
+    flipped = False
+    while isinstance(test, ast.UnaryOp) and isinstance(test.op, ast.Not):
+        test, flipped = test.operand, not flipped
+    return test, flipped
+
 
 def atoms(expr: ast.AST, polarity: bool) -> list[tuple[str, bool]]:
     """Atomic facts implied by `expr` evaluating to `polarity`: a conjunction is split when true,
